@@ -56,7 +56,7 @@ func TestMain(m *testing.M) {
 		"reject-disabled", "reject-destroyed", "reject-removed", "reject-not-yet", "reject-same-material-other-id", "reject-foreign",
 		"reject-foreign-same-prefix", "reject-foreign-crunchy-vs-legacy", "jwt-ignored-kid-accepts-kid-token",
 		"deterministic-equals-primary-alone", "valid-under-primary-alone", "prf-set-checked", "prf-set-has-nonenabled-key",
-		"monitoring-success-checked", "monitoring-failure-checked", "addkey-id-refused", "op-refused")
+		"monitoring-success-checked", "monitoring-failure-checked", "monitoring-failure-event-for-rejected-input", "addkey-id-refused", "op-refused")
 	core.Main(m, prop, "rotation", map[string]string{
 		"keyset.Manager / keyset.Handle / Handle.Public":                                                  "real",
 		"aead, daead, mac, signature, hybrid, jwt, streamingaead, prf factories (wrappers, full*Adapter)": "real",
@@ -487,7 +487,9 @@ func (w *world) idPlan(s *side) (script []uint32, kind string, pref string) {
 // rawLooksPrefixed finds a message of side s produced by a prefix-less key whose
 // first byte makes it look like a prefixed output.
 func (w *world) rawLooksPrefixed(s *side) *message {
-	if s.foreign {
+	if s.foreign || !grindClass(w.class) {
+		// other classes' output bytes may depend on randomness outside the run's seed
+		// (ML-KEM / X-Wing encapsulation), and a choice list must be a function of the draws alone
 		return nil
 	}
 	for _, m := range w.net {
@@ -1229,9 +1231,15 @@ func (w *world) checkPRFSet(v *version, set *prf.Set) {
 			r.Violation("C05/prf-id-leads-to-other-key", fmt.Sprintf("PRFs[%d] of version %s: err=%v out=%x, key alone gives %x", id, v, err, out, ref))
 		}
 		if w.mon {
-			ok, fail := mon.usage(mark)
-			if len(ok) != 1 || ok[0].keyID != id || fail != 0 {
-				r.Violation("C05/monitoring-wrong-key:prf", fmt.Sprintf("PRFs[%d].ComputePRF logged %v (failures %d)", id, ok, fail))
+			// the one sentence C05 has on monitoring: each logged success names the key that did the work
+			ok, _ := mon.usage(mark)
+			for _, e := range ok {
+				if e.keyID != id {
+					r.Violation("C05/monitoring-wrong-key:prf", fmt.Sprintf("PRFs[%d].ComputePRF logged a success for key ID %d", id, e.keyID))
+				}
+			}
+			if len(ok) == 0 {
+				r.Count("monitoring-no-success-event-for-successful-call", 1)
 			}
 			r.Probe("monitoring-success-checked")
 		}
@@ -1258,7 +1266,7 @@ func (w *world) produce(v *version, grind bool) {
 	msg := w.drawBytes("msg", 24)
 	aux := w.drawBytes("aux", 6)
 	tries := 1
-	if grind && !v.side.foreign && noPrefix(prim.variant) && (w.class == classes.MAC || w.class == classes.DAEAD || w.class == classes.AEAD) {
+	if grind && !v.side.foreign && noPrefix(prim.variant) && grindClass(w.class) {
 		// look for an output of a prefix-less key that starts like a prefixed one
 		tries = 400
 	}
@@ -1282,11 +1290,15 @@ func (w *world) produce(v *version, grind bool) {
 	if m.foreign {
 		w.r.Fault("foreign-inject")
 	}
-	if !m.foreign && noPrefix(prim.variant) && len(out) >= 5 && out[0] <= 1 && prefixClass(w.class) {
+	if !m.foreign && noPrefix(prim.variant) && len(out) >= 5 && out[0] <= 1 && grindClass(w.class) {
 		w.r.Fault("raw-output-looks-prefixed")
 	}
 	w.r.Logf("%s: message #%d from version %d by %s: %s", v.side.name, m.seq, v.idx, prim.ident, core.Hex(out, 12))
 }
+
+// grindClass: classes whose outputs depend on nothing but the run's own RNG
+// stream and are cheap enough to retry.
+func grindClass(c string) bool { return c == classes.MAC || c == classes.DAEAD || c == classes.AEAD }
 
 func prefixClass(c string) bool {
 	switch c {
@@ -1322,9 +1334,13 @@ func (w *world) produceOnce(v *version, prod *classes.Producer, prim *vent, msg,
 	}
 	// monitoring: the success names the primary
 	if w.mon && class != classes.StreamingAEAD {
+		// (how many events a call logs, and whether failures are logged at all, is not C05's business)
 		ok, fail := mon.usage(mark)
-		if len(ok) == 0 || fail != 0 {
-			r.Violation("C05/monitoring-missing:"+class+"/produce", fmt.Sprintf("successful produce logged %d successes, %d failures", len(ok), fail))
+		if len(ok) == 0 {
+			r.Count("monitoring-no-success-event-for-successful-call", 1)
+		}
+		if fail != 0 {
+			r.Count("monitoring-failure-event-around-successful-call", 1)
 		}
 		for _, e := range ok {
 			if e.keyID != prim.id {
@@ -1543,12 +1559,15 @@ func (w *world) deliver(m *message, ci int) {
 	w.outcomes[outcome] = true
 	w.relations[rel] = true
 
-	// monitoring: the success names a key that could do the work, a failure is logged as one
+	// monitoring: each logged success names a key that could do the work
 	if w.mon && class != classes.StreamingAEAD && class != classes.PRF {
 		ok, fail := mon.usage(mark)
 		if want {
-			if len(ok) == 0 || fail != 0 {
-				r.Violation("C05/monitoring-missing:"+class+"/accept", fmt.Sprintf("successful accept logged %d successes, %d failures; %s", len(ok), fail, detail))
+			if len(ok) == 0 {
+				r.Count("monitoring-no-success-event-for-successful-call", 1)
+			}
+			if fail != 0 {
+				r.Count("monitoring-failure-event-around-successful-call", 1)
 			}
 			for _, e := range ok {
 				if !okIDs[e.keyID] {
@@ -1557,8 +1576,14 @@ func (w *world) deliver(m *message, ci int) {
 			}
 			r.Probe("monitoring-success-checked")
 		} else {
-			if len(ok) != 0 || fail == 0 {
-				r.Violation("C05/monitoring-no-failure:"+class+"/accept", fmt.Sprintf("failed accept logged %d successes, %d failures; %s", len(ok), fail, detail))
+			// a success logged for a rejected input names a key that did no work
+			if len(ok) != 0 {
+				r.Violation("C05/monitoring-success-for-rejected-input:"+class+"/accept", fmt.Sprintf("rejected input logged successes %v; %s", ok, detail))
+			}
+			if fail == 0 {
+				r.Count("monitoring-no-failure-event-for-rejected-input", 1)
+			} else {
+				r.Probe("monitoring-failure-event-for-rejected-input")
 			}
 			r.Probe("monitoring-failure-checked")
 		}
